@@ -186,28 +186,57 @@ theorem created_reopenable (o : FOps) (agg : Nat) (xff : UInt32) (lay : List (In
   · rw [hv, List.take_append_of_le_length (by omega), ← hL, List.take_length]
   · rw [hlen.2.1, hlen.1]; omega
 
+/-- a handle re-created in place can be reopened from what it publishes -/
+theorem recreate_reopenable (o : FOps) (agg : Nat) (xff : UInt32) (lay : List (Int × Nat)) (hl : LayInRange lay)
+    (old disk : Bytes) (h : Handle) (hc : recreateHandle o agg xff lay old = .ok (disk, h)) : Reopenable o h := by
+  obtain ⟨d0, h0, hc0, hh, h1, h2, h3, _⟩ := recreate_spec o agg xff lay old disk h hc
+  have r0 := created_reopenable o agg xff lay hl d0 h0 hc0
+  have hL := encHeader_length h.hdr
+  refine ⟨by rw [hh]; exact r0.wf, ?_, ?_⟩
+  · rw [← hL]; exact h3
+  · rw [h2, h1]; exact Nat.le_refl _
+
 /-! ### the file/handle state machine -/
 
 /-- the live handle, if any, is reopenable -/
 def WReop (o : FOps) (w : World) : Prop := ∀ h, w.h = some h → Good h ∧ Reopenable o h
 
 /-- a `Create`d file stays reopenable through every update -/
-theorem step_reopenable (o : FOps) (w : World) (op : LibOp) (hw : WReop o w)
-    (hop : match op with | .create lay _ _ => LayInRange lay | .open_ => False | _ => True) :
+def ReopOpOK : LibOp → Prop
+  | .create lay _ _ => LayInRange lay
+  | .createOver lay _ _ => LayInRange lay
+  | .open_ => False
+  | _ => True
+
+theorem step_reopenable (o : FOps) (w : World) (op : LibOp) (hw : WReop o w) (hop : ReopOpOK op) :
     WReop o (w.step o op).1 := by
+  have fresh : ∀ lay agg xff, LayInRange lay → WReop o (w.createFresh o lay agg xff).1 := by
+    intro lay agg xff hl
+    unfold World.createFresh
+    cases hc : createHandle o agg xff lay with
+    | ok r =>
+      obtain ⟨disk, h⟩ := r
+      intro h' hh; simp at hh; subst hh
+      exact ⟨create_good o agg xff lay hl disk h hc, created_reopenable o agg xff lay hl disk h hc⟩
+    | error e => exact hw
   cases op with
   | create lay agg xff =>
     simp only [World.step]
     cases hd : w.disk with
     | some d => intro h hh; simp at hh
-    | none =>
+    | none => exact fresh lay agg xff hop
+  | createOver lay agg xff =>
+    simp only [World.step]
+    cases hd : w.disk with
+    | none => exact fresh lay agg xff hop
+    | some d =>
       simp only
-      cases hc : createHandle o agg xff lay with
+      cases hc : recreateHandle o agg xff lay d with
       | ok r =>
         obtain ⟨disk, h⟩ := r
         intro h' hh; simp at hh; subst hh
-        exact ⟨create_good o agg xff lay hop disk h hc, created_reopenable o agg xff lay hop disk h hc⟩
-      | error e => exact hw
+        exact ⟨recreate_good o agg xff lay hop d disk h hc, recreate_reopenable o agg xff lay hop d disk h hc⟩
+      | error e => intro h hh; simp at hh
   | open_ => exact absurd hop id
   | sync =>
     simp only [World.step]
